@@ -10,7 +10,7 @@ from harness.translate import translator_obligations
 from harness.oracle.exactq import Q8, ZETA, I, s2float
 
 MODULE = 'Ndt.Props.C06'
-THEOREMS = ['Ndt.rule_tables_consistent', 'Ndt.fd_tables_pos', 'Ndt.rule_residual_exponents', 'Ndt.fdRow_moments',
+THEOREMS = ['Ndt.method_order_spec', 'Ndt.rule_tables_consistent', 'Ndt.fd_tables_pos', 'Ndt.rule_residual_exponents', 'Ndt.fdRow_moments',
             'Ndt.fdRow_apply', 'Ndt.fdRow_exact', 'Ndt.fdNodes_nodup_real', 'Ndt.dotF_geometric',
             'Ndt.evalP_lagrangeCoeffs']
 EPS = 2.0 ** -52
@@ -21,6 +21,15 @@ METHODS = ['central', 'forward', 'backward', 'complex']
 
 def make_exact(h):
     return (h + 1.0) - 1.0
+
+
+def doc_orders(method, n, order):
+    """(richardson_step, method_order) as documented: the spacing of the error terms of the method (2 for central / central2 /
+    multicomplex, 1 for forward / backward, 2 or — for n > 1 or order >= 4 — 4 for complex) and the requested order rounded down to a
+    multiple of it, at least one multiple.  The harness's own closed form, not read from the library."""
+    step = {'central': 2, 'central2': 2, 'multicomplex': 2, 'forward': 1, 'backward': 1,
+            'complex': 4 if (n > 1 or order >= 4) else 2}[method]
+    return step, max((order // step) * step, step)
 
 
 def parity_of(r, m, order, method_order):
@@ -182,6 +191,11 @@ def run(ctx):
     for (m, n, o, rho), w in todo:
         r = LogRule(n=n, method=m, order=o)
         step, mo = r.richardson_step, r.method_order
+        if (step, mo) != doc_orders(m, n, o):
+            ctx.violation('the rule does not deliver the order that was asked for: method_order / richardson_step differ from the documented '
+                          'rounding of the requested order', method=m, n=n, order=o, method_order=int(mo), richardson_step=int(step),
+                          documented=list(doc_orders(m, n, o)))
+            break
         p = parity_of(r, m, n - 1, mo)
         cond = np.linalg.cond(LogRule._fd_matrix(rho, p, len(w)))
         if cond > COND_LIMIT:
